@@ -1,14 +1,15 @@
 #!/bin/bash
+# re-run every stored seeded change against the check of its property (scratch worktrees, /repo untouched), 8 at a time;
+# logs in scratch/sweepall/<id>.log, summary in scratch/sweepall/SUMMARY.txt.  Seeds whose log already ends with a result are skipped.
 cd /verif
 mkdir -p scratch/sweepall
-run() { id=$1; prop=$(python3 -c "import json;print(json.load(open('/verif/seeded/$id/meta.json'))['property'])"); SEED_TIMEOUT=2400 tools/try_seed_wt.sh /verif/seeded/$id/patch.diff $prop > scratch/sweepall/$id.log 2>&1; }
-ids=$(ls seeded)
-n=0
-for id in $ids; do
-  run $id &
-  n=$((n+1))
-  if [ $((n % 6)) -eq 0 ]; then wait; fi
-done
-wait
-for id in $ids; do echo "$id $(grep -c '^VIOLATION' scratch/sweepall/$id.log) $(grep -c 'CHECKER-ERROR' scratch/sweepall/$id.log)"; done > scratch/sweepall/SUMMARY.txt
+one() {
+  id=$1
+  if [ -s scratch/sweepall/$id.log ] && grep -qE '^C[0-9]+: ' scratch/sweepall/$id.log; then exit 0; fi
+  prop=$(python3 -c "import json;print(json.load(open('/verif/seeded/$id/meta.json'))['property'])")
+  SEED_TIMEOUT=2400 tools/try_seed_wt.sh /verif/seeded/$id/patch.diff $prop > scratch/sweepall/$id.log 2>&1
+}
+export -f one
+ls seeded | xargs -P 8 -I{} bash -c 'one {}'
+for id in $(ls seeded); do echo "$id $(grep -c '^VIOLATION' scratch/sweepall/$id.log) $(grep -c 'CHECKER-ERROR' scratch/sweepall/$id.log)"; done > scratch/sweepall/SUMMARY.txt
 echo done
